@@ -32,6 +32,16 @@ def int_sources(bits, rng, nrand):
     for v in (0, 1, mask, mask >> 1, (mask >> 1) + 1, 3_000_000_000 & mask, 16777217 & mask,
               (1 << 53) + 1 & mask, 9007199254740993 & mask, (1 << 24) + 1):
         s.add(v & mask)
+    # double-rounding witnesses: just above/below a binary32 (binary64) halfway point by less than
+    # one ulp of the wider format, so a conversion routed through a wider float type shows
+    for k in range(25, bits):
+        for w in (24, 53):
+            if k - w >= 1:
+                h = 1 << (k - w)
+                for d in (-1, 1):
+                    s.add(((1 << k) + h + d) & mask)
+                    s.add((-((1 << k) + h + d)) & mask)
+                    s.add(((1 << k) + 3 * h + d) & mask)
     for _ in range(nrand):
         s.add(rng.getrandbits(bits))
         s.add(rng.getrandbits(rng.randint(1, bits)))
